@@ -18,10 +18,10 @@ TWOFISH_VALID = "|b| { let o = core::mem::offset_of!(crate::Twofish, start); u64
 
 
 def T(crate, ty, ident, alg, klen, bs, valid=ALWAYS, exempt=NONE, dirs=("enc", "dec"), uses="", heavy=False, frame=True, blocks=True, weak=True, checked=None, nb=2,
-      accepted=None, ks_stub=None, eq_slice=True, debug=True):
+      accepted=None, ks_stub=None, eq_slice=True, debug=True, heavy_ks=False):
     return dict(crate=crate, ty=ty, ident=ident, alg=alg, klen=klen, bs=bs, valid=valid, exempt=exempt, dirs=dirs, uses=uses,
                 heavy=heavy, frame=frame, blocks=blocks, weak=weak, checked=checked, nb=nb, debug=debug,
-                accepted=accepted or ("|l| l == %d" % klen), ks_stub=ks_stub, eq_slice=eq_slice)
+                accepted=accepted or ("|l| l == %d" % klen), ks_stub=ks_stub, eq_slice=eq_slice, heavy_ks=heavy_ks or heavy)
 
 
 # key schedules stubbed out in the C11 accept/reject harnesses (the verdict Ok/Err does not depend on them; what the
@@ -52,6 +52,34 @@ TWOFISH_KS = ("// cheap stand-in for the Twofish key schedule (h function over t
               "(crate::Twofish::key_schedule, stub_tf_ks)")
 
 
+CAST6_KS = ("// cheap stand-in for the CAST-256 key schedule, injective in the 32 key bytes it is handed (XORed into the first 32\n"
+            "// bytes of the state; no field is named)\n"
+            "pub fn stub_c6_ks(c: &mut crate::Cast6, key: &[u8; 32]) {\n"
+            "    let p = c as *mut crate::Cast6 as *mut u8;\n"
+            "    let mut i = 0;\n"
+            "    while i < 32 {\n"
+            "        unsafe { *p.add(i) ^= key[i] };\n"
+            "        i += 1;\n"
+            "    }\n"
+            "}\n",
+            "(crate::Cast6::key_schedule, stub_c6_ks)")
+RC2_KS = ("// cheap stand-in for RC2 key expansion: the key bytes packed into the 64 words, length and effective length mixed in\n"
+          "pub fn stub_rc2_ks(key: &[u8], t1: usize) -> [u16; 64] {\n"
+          "    let mut o = [0u16; 64];\n"
+          "    let mut i = 0;\n"
+          "    while i < key.len() && i < 128 {\n"
+          "        o[i / 2] ^= (key[i] as u16) << (8 * (i % 2));\n"
+          "        i += 1;\n"
+          "    }\n"
+          "    o[63] ^= t1 as u16;\n"
+          "    o[62] ^= (key.len() as u16).rotate_left(5);\n"
+          "    o\n"
+          "}\n",
+          "(crate::Rc2::expand_key, stub_rc2_ks)")
+# crates whose types override KeyInit::new_from_slice (explicit length guards); every other type uses the default impl
+OVERRIDES_NFS = {"blowfish", "cast5", "cast6", "rc2", "serpent", "twofish", "xtea"}
+
+
 TYPES = [
     T("aria", "crate::Aria128", "Aria128", ["aria", "128"], 16, 16),
     T("aria", "crate::Aria192", "Aria192", ["aria", "192"], 24, 16),
@@ -63,7 +91,7 @@ TYPES = [
     T("camellia", "crate::Camellia192", "Camellia192", ["camellia", "192"], 24, 16),
     T("camellia", "crate::Camellia256", "Camellia256", ["camellia", "256"], 32, 16),
     T("cast5", "crate::Cast5", "Cast5", ["cast5"], 16, 8, valid=CAST5_VALID, exempt=CAST5_EXEMPT, accepted="|l| l >= 5 && l <= 16", ks_stub=CAST5_KS, eq_slice=False),
-    T("cast6", "crate::Cast6", "Cast6", ["cast6"], 32, 16, accepted="|l| l == 16 || l == 20 || l == 24 || l == 28 || l == 32"),
+    T("cast6", "crate::Cast6", "Cast6", ["cast6"], 32, 16, accepted="|l| l == 16 || l == 20 || l == 24 || l == 28 || l == 32", ks_stub=CAST6_KS),
     T("gift", "crate::Gift128", "Gift128", ["gift", "128"], 16, 16),
     T("idea", "crate::Idea", "Idea", ["idea"], 16, 8),
     T("kuznyechik", "crate::Kuznyechik", "Kuznyechik", ["kuznyechik"], 32, 16, heavy=True),
@@ -75,7 +103,7 @@ TYPES = [
     T("magma", "crate::Gost89CryptoProB", "Gost89<CryptoProB>", ["gost89", "cryptoprob"], 32, 8),
     T("magma", "crate::Gost89CryptoProC", "Gost89<CryptoProC>", ["gost89", "cryptoproc"], 32, 8),
     T("magma", "crate::Gost89CryptoProD", "Gost89<CryptoProD>", ["gost89", "cryptoprod"], 32, 8),
-    T("rc2", "crate::Rc2", "Rc2", ["rc2"], 32, 8, accepted="|l| l >= 1 && l <= 128"),
+    T("rc2", "crate::Rc2", "Rc2", ["rc2"], 32, 8, accepted="|l| l >= 1 && l <= 128", ks_stub=RC2_KS),
     T("serpent", "crate::Serpent", "Serpent", ["serpent"], 16, 16, accepted="|l| l >= 16 && l <= 32"),
     T("sm4", "crate::Sm4", "Sm4", ["sm4"], 16, 16),
     T("twofish", "crate::Twofish", "Twofish", ["twofish"], 32, 16, valid=TWOFISH_VALID, accepted="|l| l == 16 || l == 24 || l == 32", ks_stub=TWOFISH_KS),
@@ -91,7 +119,10 @@ for n, kl, bs in [("Speck32_64", 8, 4), ("Speck48_72", 9, 6), ("Speck48_96", 12,
 RC5_USES = "use cipher::consts::*;\n"
 for w, r, b in [("u32", 12, 16), ("u16", 16, 8), ("u8", 12, 4), ("u64", 24, 24), ("u128", 28, 32), ("u32", 16, 16), ("u16", 1, 3), ("u32", 12, 5)]:
     wb = {"u8": 1, "u16": 2, "u32": 4, "u64": 8, "u128": 16}[w]
-    TYPES.append(T("rc5", f"crate::RC5<{w}, U{r}, U{b}>", "RC5", ["rc5", str(8 * wb) if False else w, str(r), str(b)], b, 2 * wb, uses=RC5_USES))
+    # the RC5 key schedule (3 * max(t, c) mixing steps with data-dependent rotations) on a symbolic key is heavy from 32-bit
+    # words upwards (measured 640-740 s for u32/12/5 and u32/16/16): the CONSTRUCTOR harnesses (key-length verdict, new ==
+    # new_from_slice, construction history) of those instantiations are thorough; the 8- and 16-bit-word ones stay quick
+    TYPES.append(T("rc5", f"crate::RC5<{w}, U{r}, U{b}>", "RC5", ["rc5", str(8 * wb) if False else w, str(r), str(b)], b, 2 * wb, uses=RC5_USES, heavy_ks=(wb >= 4 and r > 1)))
 
 
 # Routing stubs: for table-based ciphers the blocks / frame / mixed harnesses (whose subject is buffer routing and state
@@ -133,21 +164,25 @@ ROUTE = {
 EXTRA = {
     "serpent": r'''
 // ---- C11: a short Serpent key and its explicitly padded 32-byte form (key || 0x01 || 0x00...) give the same cipher
-fn state_bytes_eq<T>(a: &core::mem::MaybeUninit<T>, b: &core::mem::MaybeUninit<T>) -> bool {
+fn state_bytes_eq(a: &core::mem::MaybeUninit<crate::Serpent>, b: &core::mem::MaybeUninit<crate::Serpent>) -> bool {
+    // one block copy of each instance into a byte array, then a branch-free comparison (528 early exits through raw-pointer
+    // reads took 690 s)
+    const S: usize = core::mem::size_of::<crate::Serpent>();
+    let ba: [u8; S] = unsafe { core::ptr::read(a.as_ptr() as *const [u8; S]) };
+    let bb: [u8; S] = unsafe { core::ptr::read(b.as_ptr() as *const [u8; S]) };
+    let mut d = 0u8;
     let mut i = 0;
-    while i < core::mem::size_of::<T>() {
-        if generic::peek(a, i) != generic::peek(b, i) {
-            return false;
-        }
+    while i < S {
+        d |= ba[i] ^ bb[i];
         i += 1;
     }
-    true
+    d == 0
 }
 //@ harness name=serpent_short_eq_padded prop=C11 tier=quick bits=260 est=200 desc="Serpent::new_from_slice(&k[..len]) for len symbolic in 16..=31 yields the same round keys as new_from_slice of the explicit 32-byte form k[..len] || 0x01 || 0x00..; all key bytes symbolic; public API only"
 verif_harness! {
     name: serpent_short_eq_padded,
     bytes: 33,
-    unwind: 140,
+    unwind: 600,
     prop: |inp| {
         use cipher::KeyInit;
         let key: [u8; 32] = take(&inp[..], 0);
@@ -166,11 +201,12 @@ verif_harness! {
 ''',
     "cast6": r'''
 // ---- C11: a 16/20/24/28-byte CAST-256 key and its zero-padded 32-byte form give the same cipher
-//@ harness name=cast6_short_eq_padded prop=C11 tier=quick bits=258 est=300 desc="Cast6::new_from_slice(&k[..len]) for len in {16,20,24,28} (symbolic choice) yields the same masking/rotation keys as new_from_slice of k[..len] zero-padded to 32 bytes; all key bytes symbolic; public API only"
+//@ harness name=cast6_short_eq_padded prop=C11 tier=quick bits=258 stub=1 est=60 desc="Cast6::new_from_slice(&k[..len]) for len in {16,20,24,28} (symbolic choice) and new_from_slice of k[..len] zero-padded to 32 bytes hand the key schedule the same 32 bytes (schedule replaced by a stand-in that is injective in them; the schedule itself is C08's subject); all key bytes symbolic"
 verif_harness! {
     name: cast6_short_eq_padded,
     bytes: 33,
-    unwind: 140,
+    unwind: 400,
+    stubs: [(crate::Cast6::key_schedule, stub_c6_ks)],
     prop: |inp| {
         use cipher::KeyInit;
         let key: [u8; 32] = take(&inp[..], 0);
@@ -237,11 +273,12 @@ verif_harness! {
 ''',
     "rc2": r'''
 // ---- C11: Rc2 from a slice == Rc2 with effective key length 8 x len
-//@ harness name=rc2_slice_eq_eff_len prop=C11 tier=quick bits=136 est=200 desc="Rc2::new_from_slice(&k[..len]) and Rc2::new_with_eff_key_len(&k[..len], 8*len) have the same expanded key for len symbolic in 1..=16 (quick bound; all key bytes symbolic)"
+//@ harness name=rc2_slice_eq_eff_len prop=C11 tier=quick bits=136 stub=1 est=60 desc="Rc2::new_from_slice(&k[..len]) and Rc2::new_with_eff_key_len(&k[..len], 8*len) call the key expansion with the same key bytes and the same effective length, for len symbolic in 1..=16 (expansion replaced by a stand-in that depends on every key byte, the length and the effective length; the expansion itself is C09's subject); all key bytes symbolic"
 verif_harness! {
     name: rc2_slice_eq_eff_len,
     bytes: 17,
-    unwind: 140,
+    unwind: 200,
+    stubs: [(crate::Rc2::expand_key, stub_rc2_ks)],
     prop: |inp| {
         use cipher::KeyInit;
         let key: [u8; 16] = take(&inp[..], 0);
@@ -294,11 +331,15 @@ def emit(crate, rows):
         stub_decl, stub_pair = t["ks_stub"] if t["ks_stub"] else ("", "")
         if stub_decl and stub_decl not in "".join(o):
             o.append(stub_decl)
-        o.append('//@ harness name=%s_keylen prop=C11 tier=quick bits=2416 %sdesc="%s::new_from_slice(&buf[..len]) is Ok exactly for the accepted key lengths and Err(InvalidLength) otherwise, without panicking; buf (300 bytes) and len (0..=300) symbolic%s"\n'
-                 % (n, "stub=1 " if stub_pair else "", ty, "; key schedule stubbed out (verdict only)" if stub_pair else ""))
-        o.append("g_keylen!(%s_keylen, %s, 300, %s%s);\n" % (n, ty, t["accepted"], (", stubs: [%s]" % stub_pair) if stub_pair else ""))
+        o.append('//@ harness name=%s_keylen prop=C11 tier=%s bits=2416 %sdesc="%s::new_from_slice(&buf[..len]) is Ok exactly for the accepted key lengths and Err(InvalidLength) otherwise, without panicking; buf (300 bytes) and len (0..=300) symbolic%s"\n'
+                 % (n, "quick" if (stub_pair or not t["heavy_ks"] or crate != "rc5") else "thorough", "stub=1 " if stub_pair else "", ty, "; key schedule stubbed out (verdict only)" if stub_pair else ""))
+        if crate in OVERRIDES_NFS:
+            o.append("g_keylen!(%s_keylen, %s, 300, %s%s);\n" % (n, ty, t["accepted"], (", stubs: [%s]" % stub_pair) if stub_pair else ""))
+        else:
+            o[-1] = o[-1].replace("tier=thorough", "tier=quick").replace("bits=2416", "bits=16").replace("buf (300 bytes) and len (0..=300) symbolic", "len (0..=300) symbolic, key content the zero string (default new_from_slice: the verdict depends on the length only)")
+            o.append("g_keylen0!(%s_keylen, %s, 300, %s);\n" % (n, ty, t["accepted"]))
         if t["eq_slice"]:
-            o.append('//@ harness name=%s_new_eq_slice prop=C11 tier=%s bits=%d %sdesc="%s::new(&key) and new_from_slice(&key[..]) yield the same state for every %d-byte key%s"\n' % (n, "quick" if (stub_pair or not t["heavy"]) else "thorough", 8 * kl, "stub=1 " if stub_pair else "", ty, kl, "; key schedule replaced by a cheap stand-in that is injective in key bytes and length (the subject is what the constructors hand to it)" if stub_pair else ""))
+            o.append('//@ harness name=%s_new_eq_slice prop=C11 tier=%s bits=%d %sdesc="%s::new(&key) and new_from_slice(&key[..]) yield the same state for every %d-byte key%s"\n' % (n, "quick" if (crate in OVERRIDES_NFS and (stub_pair or not t["heavy_ks"])) else "thorough", 8 * kl, "stub=1 " if stub_pair else "", ty, kl, "; key schedule replaced by a cheap stand-in that is injective in key bytes and length (the subject is what the constructors hand to it)" if stub_pair else ""))
             o.append("g_new_eq_slice!(%s_new_eq_slice, %s, %d, %s%s);\n" % (n, ty, kl, t["exempt"], (", stubs: [%s]" % stub_pair) if stub_pair else ""))
         o.append('//@ harness name=%s_zeroize prop=C16 tier=quick bits=64 variants=%s+zeroize desc="drop_in_place of an arbitrary-state %s (zeroize feature) leaves every non-padding byte of its storage zero"\n' % (n, crate, ty))
         o.append("g_zeroize!(%s_zeroize, %s, %s, %s);\n" % (n, ty, t["valid"], t["exempt"]))
@@ -306,7 +347,7 @@ def emit(crate, rows):
         # C15: construction history (process-wide state written by constructors) and mixed-direction history
         ks = (", stubs: [%s]" % stub_pair) if stub_pair else ""
         o.append('//@ harness name=%s_ctor_history prop=C15 tier=%s bits=%d %sdesc="%s: history new(k2) in a fresh process, new(k1), new(k2), new(k3), new(k1): both constructions from k2 give the same state and both from k1 do, for all keys k1, k2, k3 (no process-wide state written by construction changes a later construction; a one-entry cache needs the eviction by k3 to show)%s"\n'
-                 % (n, "quick" if (stub_pair or not t["heavy"]) else "thorough", 24 * kl, "stub=1 " if stub_pair else "", ty, "; key schedule replaced by a cheap key-dependent stub" if stub_pair else ""))
+                 % (n, "quick" if (stub_pair or not t["heavy_ks"]) else "thorough", 24 * kl, "stub=1 " if stub_pair else "", ty, "; key schedule replaced by a cheap key-dependent stub" if stub_pair else ""))
         o.append("g_ctor_history!(%s_ctor_history, %s, %d, %s%s);\n" % (n, ty, kl, t["exempt"], ks))
         if set(t["dirs"]) == {"enc", "dec"}:
             o.append('//@ harness name=%s_mixed prop=C15,C20 tier=%s bits=%d %sdesc="%s: on one arbitrary-state instance the history enc(x); dec(x); dec(y); enc(y) returns for dec(x) and enc(y) what a pristine instance with the same state returns (no memoisation across directions), instance bytes unchanged%s"\n' % (n, tier, 16 * bs + 64, rmeta, ty, rnote))
@@ -340,7 +381,39 @@ def emit(crate, rows):
     o.append(EXTRA.get(crate, ""))
     p = os.path.join(VERIF, "harness", crate, "xcut.rs")
     os.makedirs(os.path.dirname(p), exist_ok=True)
-    open(p, "w").write("".join(o))
+    text = "".join(o)
+    # keep the measured est= / need= values that bin/update-est wrote into the previous generation of this file
+    import re
+    measured = {}
+    if os.path.exists(p):
+        for line in open(p):
+            m = re.match(r"//@ harness name=(\w+) ", line)
+            if m:
+                e = re.search(r" est=(\S+)", line)
+                nd = re.search(r" need=(\S+)", line)
+                measured[m.group(1)] = (e.group(1) if e else None, nd.group(1) if nd else None)
+    # measured tier decisions (bin/retier): harnesses that did not fit the quick tier's budget
+    import json
+    tp = os.path.join(VERIF, "lib", "bcv", "xcut_tiers.json")
+    tiers = json.load(open(tp)) if os.path.exists(tp) else {}
+    out = []
+    for line in text.split("\n"):
+        m = re.match(r"//@ harness name=(\w+) ", line)
+        if m and ("%s/%s" % (crate, m.group(1))) in tiers and " tier=quick" in line:
+            line = line.replace(" tier=quick", " tier=" + tiers["%s/%s" % (crate, m.group(1))]["tier"], 1)
+            if "memory" in tiers["%s/%s" % (crate, m.group(1))].get("why", "") and " mem=" not in line:
+                line = line.replace(" desc=", " mem=30 desc=", 1)
+        if m and m.group(1) in measured:
+            e, nd = measured[m.group(1)]
+            ins = ""
+            if e and " est=" not in line:
+                ins += " est=" + e
+            if nd and " need=" not in line:
+                ins += " need=" + nd
+            if ins:
+                line = line.replace(" desc=", ins + " desc=", 1)
+        out.append(line)
+    open(p, "w").write("\n".join(out))
 
 
 def main():
